@@ -16,6 +16,12 @@ pub mod sync {
         #[derive(Debug)]
         pub struct RecvError;
 
+        static mut SENDS: usize = 0;
+        /// number of `send_replace` calls on any model watch channel (harness observation point)
+        pub fn model_sends() -> usize {
+            unsafe { SENDS }
+        }
+
         pub fn channel<T>(init: T) -> (Sender<T>, Receiver<T>) {
             (Sender { value: RefCell::new(init) }, Receiver { _detached: PhantomData })
         }
@@ -25,6 +31,9 @@ pub mod sync {
                 self.value.borrow()
             }
             pub fn send_replace(&self, value: T) -> T {
+                unsafe {
+                    SENDS += 1;
+                }
                 self.value.replace(value)
             }
             pub fn subscribe(&self) -> Receiver<T> {
@@ -333,4 +342,38 @@ pub fn model_spawned() -> usize {
 }
 pub fn model_completed() -> usize {
     unsafe { COMPLETED }
+}
+
+/// MODEL of `tokio::select!` for the form `pat = future => expr, ...` where no branch body uses `?`, `.await` or
+/// `return` (true of `Worker::run_control_streams`): the branch futures are created, pinned and polled once per poll
+/// of the enclosing future, in textual order (tokio picks a random order; with at most one branch ever ready the
+/// order is immaterial); the first one that is ready wins and ALL branch futures are dropped when the select
+/// completes or when the enclosing future is dropped - exactly tokio's documented behaviour for the losing branches.
+#[macro_export]
+macro_rules! select {
+    ($($t:tt)*) => { $crate::__select_acc!(() $($t)*) };
+}
+#[doc(hidden)]
+#[macro_export]
+macro_rules! __select_acc {
+    // done parsing: emit
+    (($(($f:ident, $p:pat, $b:expr))*)) => {{
+        ::std::future::poll_fn(|__cx| {
+            $(
+                if let ::std::task::Poll::Ready(__v) = ::std::future::Future::poll($f.as_mut(), __cx) {
+                    let $p = __v;
+                    return ::std::task::Poll::Ready($b);
+                }
+            )*
+            ::std::task::Poll::Pending
+        }).await
+    }};
+    (($($acc:tt)*) $p:pat = $e:expr => $b:expr, $($rest:tt)*) => {{
+        let mut __fut = ::std::pin::pin!($e);
+        $crate::__select_acc!(($($acc)* (__fut, $p, $b)) $($rest)*)
+    }};
+    (($($acc:tt)*) $p:pat = $e:expr => $b:expr) => {{
+        let mut __fut = ::std::pin::pin!($e);
+        $crate::__select_acc!(($($acc)* (__fut, $p, $b)))
+    }};
 }
